@@ -157,16 +157,15 @@ def IIB.cons (b : Nat) : IIB → IIB
 def iiLoopB (ch : Chunking) : (fuel n prev : Nat) → BS → BS × IIB
   | 0, _, _, s => (s, .hang)
   | fuel+1, n, prev, s =>
-    if n ≥ Gen.content_maxInlineImageBytes then (s, .capped)
+    let (s1, isEI) := if prev == 13 || prev == 10 then checkEIB ch s else (s, false)
+    if isEI then (s1, .found [])
+    else if n > Gen.content_maxInlineImageBytes then (s1, .capped)
     else
-      let (s1, isEI) := if prev == 13 || prev == 10 then checkEIB ch s else (s, false)
-      if isEI then (s1, .found [])
-      else
-        match readByte ch s1 with
-        | (s2, .byte b) =>
-          let (s3, r) := iiLoopB ch fuel (n + 1) b s2
-          (s3, r.cons b)
-        | (s2, .eof) => (s2, .eof)
-        | (s2, .hang) => (s2, .hang)
+      match readByte ch s1 with
+      | (s2, .byte b) =>
+        let (s3, r) := iiLoopB ch fuel (n + 1) b s2
+        (s3, r.cons b)
+      | (s2, .eof) => (s2, .eof)
+      | (s2, .hang) => (s2, .hang)
 
 end PdfVerif.CNTB
